@@ -141,7 +141,7 @@ func HandleBulkBody(postBody []byte, ctx *fasthttp.RequestCtx, rid uint64, myid 
 	origItems := items
 	defer respItemsPool.Put(&origItems)
 
-	atleastOneSuccess := false
+	numSuccess := 0
 	localIndexMap := make(map[string]string)
 
 	idxToStreamIdCache := make(map[string]string)
@@ -150,6 +150,8 @@ func HandleBulkBody(postBody []byte, ctx *fasthttp.RequestCtx, rid uint64, myid 
 	var jsParsingStackbuf [utils.UnescapeStackBufSize]byte
 
 	allPLEs := make([]*writer.ParsedLogEvent, 0)
+	// pleItemIdxs[i] is the position in items of the action that allPLEs[i] belongs to
+	pleItemIdxs := make([]int, 0)
 	defer func() {
 		writer.ReleasePLEs(allPLEs)
 	}()
@@ -159,10 +161,12 @@ func HandleBulkBody(postBody []byte, ctx *fasthttp.RequestCtx, rid uint64, myid 
 	remainingPostBody := postBody
 	for {
 		line, remainingPostBody = utils.ReadLine(remainingPostBody)
-		if len(remainingPostBody) == 0 {
+		if len(remainingPostBody) == 0 && len(bytes.TrimSpace(line)) == 0 {
+			// end of the body; an action on the last line (with or without a newline) still gets its item
 			break
 		}
 
+		maxRecordSizeExceeded = false
 		inCount++
 		if inCount >= len(items) {
 			newArr := make([]interface{}, 100)
@@ -219,6 +223,7 @@ func HandleBulkBody(postBody []byte, ctx *fasthttp.RequestCtx, rid uint64, myid 
 						success = false
 					} else {
 						allPLEs = append(allPLEs, ple)
+						pleItemIdxs = append(pleItemIdxs, inCount-1)
 					}
 				}
 			} else {
@@ -237,6 +242,7 @@ func HandleBulkBody(postBody []byte, ctx *fasthttp.RequestCtx, rid uint64, myid 
 		}
 
 		if !success {
+			overallError = true
 			responsebody := make(map[string]interface{})
 			if maxRecordSizeExceeded {
 				error_response := utils.BulkErrorResponse{
@@ -246,7 +252,6 @@ func HandleBulkBody(postBody []byte, ctx *fasthttp.RequestCtx, rid uint64, myid 
 				responsebody["status"] = 413
 				items[inCount-1] = responsebody
 			} else {
-				overallError = true
 				error_response := utils.BulkErrorResponse{
 					ErrorResponse: *utils.NewBulkErrorResponseInfo("indexing request failed", "mapper_parse_exception"),
 				}
@@ -255,7 +260,7 @@ func HandleBulkBody(postBody []byte, ctx *fasthttp.RequestCtx, rid uint64, myid 
 				items[inCount-1] = responsebody
 			}
 		} else {
-			atleastOneSuccess = true
+			numSuccess++
 			items[inCount-1] = resp_status_201
 		}
 	}
@@ -270,7 +275,20 @@ func HandleBulkBody(postBody []byte, ctx *fasthttp.RequestCtx, rid uint64, myid 
 			jsParsingStackbuf[:], plesInBatch)
 		if err != nil {
 			log.Errorf("HandleBulkBody: failed to process index request, indexName=%v, err=%v", indexName, err)
-			// TODO: update `atleastOneSuccess`
+			// the batch was not stored: its items must not be acknowledged as created
+			for i, ple := range allPLEs {
+				if ple.GetIndexName() != indexName {
+					continue
+				}
+				responsebody := make(map[string]interface{})
+				responsebody["index"] = utils.BulkErrorResponse{
+					ErrorResponse: *utils.NewBulkErrorResponseInfo("failed to store the document", "index_failed_engine_exception"),
+				}
+				responsebody["status"] = 500
+				items[pleItemIdxs[i]] = responsebody
+				numSuccess--
+			}
+			overallError = true
 		}
 	}
 
@@ -280,7 +298,7 @@ func HandleBulkBody(postBody []byte, ctx *fasthttp.RequestCtx, rid uint64, myid 
 	response["errors"] = overallError
 	response["items"] = items[0:inCount]
 
-	if atleastOneSuccess {
+	if numSuccess > 0 {
 		return processedCount, response, nil
 	} else {
 		return processedCount, response, errors.New("all bulk requests failed")
